@@ -546,8 +546,17 @@ impl<'a> ExpressionEvaluator<'a> {
                 )),
             },
             UnaryOperator::Minus => match operand {
-                DataType::BigInt(i) => Ok(DataType::BigInt((-i.0).into())),
-                DataType::Int(i) => Ok(DataType::Int((-i.0).into())),
+                // The smallest value of a signed type has no positive counterpart.
+                DataType::BigInt(i) => i
+                    .0
+                    .checked_neg()
+                    .map(|v| DataType::BigInt(v.into()))
+                    .ok_or(EvaluationError::TypeError(TypeSystemError::ArithmeticOverflow)),
+                DataType::Int(i) => i
+                    .0
+                    .checked_neg()
+                    .map(|v| DataType::Int(v.into()))
+                    .ok_or(EvaluationError::TypeError(TypeSystemError::ArithmeticOverflow)),
                 DataType::Double(f) => Ok(DataType::Double((-f.0).into())),
                 DataType::Float(f) => Ok(DataType::Float((-f.0).into())),
                 _ => Err(EvaluationError::TypeError(
@@ -572,6 +581,14 @@ impl Callable for Abs {
         };
 
         let first = &args[0];
+        // The smallest value of a signed type has no positive counterpart.
+        if matches!(first, DataType::BigInt(i) if i.0 == i64::MIN)
+            || matches!(first, DataType::Int(i) if i.0 == i32::MIN)
+        {
+            return Err(EvaluationError::TypeError(
+                TypeSystemError::ArithmeticOverflow,
+            ));
+        }
         Ok(first.abs())
     }
 }
